@@ -10,3 +10,27 @@ package object
 //gvc:  theory bv
 //gvc:  ensures canon: result == spec_canon_mode(mode)
 //gvc:end
+
+// GetObject as the definition of the object graph for C22 (trusted: the
+// commit/tree/tag decoders are not followed here). Whatever GetObject decodes
+// for h lists every child of h: a commit's tree and (unless h is a shallow
+// root) parents, a tree's entries, a tag's target. An entry with a regular or
+// executable file mode names a blob, which has no children.
+//gvc:func GetObject
+//gvc:  trusted
+//gvc:  params s h
+//gvc:  results obj err
+//gvc:  ensures nn: err == nil ==> obj != nil
+//gvc:  ensures commit: err == nil && typeis(obj, "Commit") ==> field(obj, "Commit.Hash") == h && keyid(field(obj, "Commit.Hash")) == keyid(h) && forall(b, spec_child(keyid(h), b) ==> b == keyid(field(obj, "Commit.TreeHash")) || (!spec_shallow(keyid(h)) && exists(i, 0, len(field(obj, "Commit.ParentHashes")), b == keyid(field(obj, "Commit.ParentHashes")[i]))))
+//gvc:  ensures tree: err == nil && typeis(obj, "Tree") ==> forall(b, spec_child(keyid(h), b) ==> exists(i, 0, len(field(obj, "Tree.Entries")), b == keyid(field(obj, "Tree.Entries")[i].Hash)))
+//gvc:  ensures blobs: err == nil && typeis(obj, "Tree") ==> forall(i, 0, len(field(obj, "Tree.Entries")), (field(obj, "Tree.Entries")[i].Mode | 0o755) == 0o100755 ==> forall(b, !spec_child(keyid(field(obj, "Tree.Entries")[i].Hash), b)))
+//gvc:  ensures tag: err == nil && typeis(obj, "Tag") ==> forall(b, spec_child(keyid(h), b) ==> b == keyid(field(obj, "Tag.Target")))
+//gvc:end
+
+//gvc:func (*Commit).ID
+//gvc:  props C22
+//gvc:  theory int
+//gvc:  requires nn: c != nil
+//gvc:  ensures id: result == c.Hash
+//gvc:  ensures kid: keyid(result) == keyid(c.Hash)
+//gvc:end
